@@ -145,7 +145,7 @@ impl DumpHeader {
                 b".nroots" => nroots = parse_single_usize(value, line_no)?,
                 b".rootids" => {
                     header.rootids.clear();
-                    header.rootids.reserve(nroots);
+                    header.rootids.reserve(nroots.min(value.len()));
                     parse_edge_list(value, &mut header.rootids, line_no)?;
                 }
                 b".rootnames" => header.rootnames = parse_str_list(value, nroots),
@@ -578,7 +578,7 @@ where
     M::InnerNode: HasLevel,
     M::Terminal: ParseTagged<M::EdgeTag>,
 {
-    let mut nodes = EdgeVecDropGuard::new(manager, Vec::with_capacity(header.nnodes));
+    let mut nodes = EdgeVecDropGuard::new(manager, try_with_capacity(header.nnodes)?);
     let mut line = Vec::new();
     let mut children = Vec::with_capacity(M::InnerNode::ARITY);
     for node_id in 1..=header.nnodes {
@@ -736,7 +736,7 @@ where
         Ok((id - 1) as usize)
     }
 
-    let mut nodes = EdgeVecDropGuard::new(manager, Vec::with_capacity(header.nnodes));
+    let mut nodes = EdgeVecDropGuard::new(manager, try_with_capacity(header.nnodes)?);
     for node_id in 1..=header.nnodes {
         let node_code = read_unescape(&mut input)?;
         let var_code = Code::from((node_code >> 5) & 0b11);
@@ -815,6 +815,17 @@ where
     Ok(nodes.into_vec())
 }
 
+/// Like [`Vec::with_capacity()`], but return an error if the allocation fails
+/// (`capacity` is the `.nnodes` value of the header, which is not validated
+/// against the actual input size)
+fn try_with_capacity<T>(capacity: usize) -> io::Result<Vec<T>> {
+    let mut vec = Vec::new();
+    match vec.try_reserve_exact(capacity) {
+        Ok(()) => Ok(vec),
+        Err(_) => Err(io::ErrorKind::OutOfMemory.into()),
+    }
+}
+
 /// Read and unescape a byte. Counterpart of [`write_escaped()`]
 fn read_unescape(input: impl io::BufRead) -> io::Result<u8> {
     // In principle, `io::Read` (instead of `io::BufRead`) is enough, but not
@@ -882,7 +893,9 @@ const fn trim(s: &[u8]) -> &[u8] {
 ///
 /// All strings in the returned vector are guaranteed to be non-empty.
 fn parse_str_list(input: &[u8], capacity: usize) -> Vec<String> {
-    let mut res = Vec::with_capacity(capacity);
+    // `capacity` stems from the (unchecked) header; there cannot be more
+    // elements than input bytes
+    let mut res = Vec::with_capacity(capacity.min(input.len()));
     let mut start = 0;
     for pos in memchr::memchr2_iter(b' ', b'\t', input).chain([input.len()]) {
         // skip empty strings
@@ -989,7 +1002,9 @@ parse_single_unsigned!(parse_single_usize, usize);
 
 /// Parse a space (or tab) separated list of integers
 fn parse_u32_list(input: &[u8], capacity: usize, line_no: usize) -> io::Result<Vec<u32>> {
-    let mut res = Vec::with_capacity(capacity);
+    // `capacity` stems from the (unchecked) header; there cannot be more
+    // elements than input bytes
+    let mut res = Vec::with_capacity(capacity.min(input.len()));
     let mut i = 0u32;
     let mut num = false;
 
